@@ -220,6 +220,27 @@ fn outcome_matches(exp: &Outcome, obs: &Obs) -> bool {
 }
 
 /// C19-ish sanity on a matching mock panic: the message names the method (and the pattern when it has debug info)
+/// `naming_ok` plus the rendering of the call itself: `Trait::method(args)` with the Debug renderings of the actual
+/// arguments (all of the universe's arguments are small integers), except for the two error kinds that only name
+/// the method.
+pub fn naming_ok_with_args(exp: &Outcome, msg: &str, spec: &Spec, called: MethodId, args: &[u8]) -> bool {
+    if !naming_ok(exp, msg, spec) {
+        return false;
+    }
+    if let Outcome::MockPanic { kind, method, .. } = exp {
+        // (an error about a nested call made by a real function / default body carries that call's arguments)
+        if *method == called && !matches!(kind, PanicKind::CannotUnmock | PanicKind::NoDefaultImpl) {
+            let rendered = format!(
+                "{}({})",
+                method.path(),
+                args.iter().map(|a| a.to_string()).collect::<Vec<_>>().join(", ")
+            );
+            return msg.starts_with(&rendered);
+        }
+    }
+    true
+}
+
 pub fn naming_ok(exp: &Outcome, msg: &str, spec: &Spec) -> bool {
     if let Outcome::MockPanic { kind, method, pat } = exp {
         if !msg.contains(&method.path()) {
@@ -739,7 +760,7 @@ fn check_inner(case: &Case, trace: &Trace, cfg: BuildCfg, variant: Variant) -> C
                 }
                 if let Obs::PanicString(msg) = &o.obs {
                     observed_errors.push(msg.clone());
-                    if !naming_ok(&exp, msg, &spec) {
+                    if !naming_ok_with_args(&exp, msg, &spec, *method, args) {
                         // the properties that promise a panic *naming the call* for this kind of error
                         let props = match &exp {
                             Outcome::MockPanic { kind: PanicKind::CannotUnmock, .. } => vec!["C19", "C16"],
